@@ -17,6 +17,11 @@ Conventions
   running out of fuel is recorded in `Mem.bad`, never silently ignored.
 * `Mem.bad`: 0 = nothing happened; 1 = misaligned word dereference; 2 = a loop ran out of fuel;
   3 = `usize` subtraction underflow (`n -= dest_misalignment`; a panic in a debug build).
+* Access logs: every load the code makes is recorded, byte address by byte address, in `Mem.rlog`
+  (`Mem.note` for `*p` on a `*const u8`, `noteWord` for a `usize` load = its 8 byte addresses) right
+  before the value is taken with `Mem.rd`/`rdWord`; every store is recorded in `Mem.wlog` by `Mem.wr`
+  itself.  The logs are what "accesses no memory outside `[s, s+n)` of any operand" is stated about
+  (Props/C08.lean, `*_reads_in_bounds`, `*_writes_in_bounds`); they do not influence any value.
 -/
 namespace TinyVerif.MemFns
 
@@ -34,6 +39,10 @@ structure Mem where
   data : Array UInt8
   oob : List (Nat × UInt8)
   bad : Nat
+  /-- byte addresses loaded by the code under test, newest first -/
+  rlog : List Nat
+  /-- byte addresses stored to by the code under test, newest first -/
+  wlog : List Nat
 
 def lookup (a : Nat) : List (Nat × UInt8) → UInt8
   | [] => 0
@@ -45,9 +54,19 @@ def Mem.rd (m : Mem) (a : Nat) : UInt8 :=
   else lookup a m.oob
 
 def Mem.wr (m : Mem) (a : Nat) (v : UInt8) : Mem :=
-  if a < m.base then { m with oob := (a, v) :: m.oob }
-  else if a - m.base < m.data.size then { m with data := m.data.setIfInBounds (a - m.base) v }
-  else { m with oob := (a, v) :: m.oob }
+  if a < m.base then { m with oob := (a, v) :: m.oob, wlog := a :: m.wlog }
+  else if a - m.base < m.data.size then { m with data := m.data.setIfInBounds (a - m.base) v, wlog := a :: m.wlog }
+  else { m with oob := (a, v) :: m.oob, wlog := a :: m.wlog }
+
+/-- record a byte load at `a` (the value is then taken with `rd`) -/
+def Mem.note (m : Mem) (a : Nat) : Mem := { m with rlog := a :: m.rlog }
+
+/-- record a `usize` load at `a`: the 8 byte addresses `a .. a+7` -/
+def noteWord (m : Mem) (a : Nat) : Mem :=
+  { m with rlog := (a + 7) :: (a + 6) :: (a + 5) :: (a + 4) :: (a + 3) :: (a + 2) :: (a + 1) :: a :: m.rlog }
+
+/-- forget the logs (the driver does this after it has set the arena up) -/
+def Mem.clearLogs (m : Mem) : Mem := { m with rlog := [], wlog := [] }
 
 /-- record the first bad event -/
 def Mem.flag (m : Mem) (code : Nat) : Mem :=
@@ -84,7 +103,9 @@ def andNotMask (n : Nat) : Nat := n - (n &&& WORD_MASK)
 def copyForwardBytesLoop : Nat → Mem → Nat → Nat → Nat → Mem
   | 0, m, dest, _, dest_end => if dest < dest_end then m.flag 2 else m
   | f + 1, m, dest, src, dest_end =>
-    if dest < dest_end then copyForwardBytesLoop f (m.wr dest (m.rd src)) (dest + 1) (src + 1) dest_end
+    if dest < dest_end then
+      let m := m.note src
+      copyForwardBytesLoop f (m.wr dest (m.rd src)) (dest + 1) (src + 1) dest_end
     else m
 
 def copyForwardBytes (m : Mem) (dest src n : Nat) : Mem :=
@@ -97,6 +118,7 @@ def copyForwardAlignedWordsLoop : Nat → Mem → Nat → Nat → Nat → Mem
   | f + 1, m, dest, src, dest_end =>
     if dest < dest_end then
       let m := chkAligned m src
+      let m := noteWord m src
       let w := rdWord m src
       let m := chkAligned m dest
       copyForwardAlignedWordsLoop f (wrWord m dest w) (dest + WORD_SIZE) (src + WORD_SIZE) dest_end
@@ -111,6 +133,7 @@ def copyForwardMisalignedWordsLoop : Nat → Mem → Nat → Nat → Nat → Mem
   | 0, m, dest, _, dest_end => if dest < dest_end then m.flag 2 else m
   | f + 1, m, dest, src, dest_end =>
     if dest < dest_end then
+      let m := noteWord m src
       let w := rdWord m src
       let m := chkAligned m dest
       copyForwardMisalignedWordsLoop f (wrWord m dest w) (dest + WORD_SIZE) (src + WORD_SIZE) dest_end
@@ -148,6 +171,7 @@ def copyBackwardBytesLoop : Nat → Mem → Nat → Nat → Nat → Mem
     if dest_start < dest then
       let dest := dest - 1
       let src := src - 1
+      let m := m.note src
       copyBackwardBytesLoop f (m.wr dest (m.rd src)) dest src dest_start
     else m
 
@@ -162,6 +186,7 @@ def copyBackwardAlignedWordsLoop : Nat → Mem → Nat → Nat → Nat → Mem
       let dest := dest - WORD_SIZE
       let src := src - WORD_SIZE
       let m := chkAligned m src
+      let m := noteWord m src
       let w := rdWord m src
       let m := chkAligned m dest
       copyBackwardAlignedWordsLoop f (wrWord m dest w) dest src dest_start
@@ -177,6 +202,7 @@ def copyBackwardMisalignedWordsLoop : Nat → Mem → Nat → Nat → Nat → Me
     if dest_start < dest then
       let dest := dest - WORD_SIZE
       let src := src - WORD_SIZE
+      let m := noteWord m src
       let w := rdWord m src
       let m := chkAligned m dest
       copyBackwardMisalignedWordsLoop f (wrWord m dest w) dest src dest_start
@@ -257,18 +283,20 @@ def setBytes (m : Mem) (s : Nat) (c : UInt8) (n : Nat) : Mem :=
 /-! ## compare_bytes -/
 
 /-- `while i < n { a = s1[i]; b = s2[i]; if a != b { return a as i32 - b as i32 } i += 1 } 0`;
-`none` = out of fuel -/
-def compareBytesLoop : Nat → Mem → Nat → Nat → Nat → Nat → Option Int
-  | 0, _, _, _, n, i => if i < n then none else some 0
+`none` = out of fuel.  The memory comes back with the two byte loads of every iteration logged. -/
+def compareBytesLoop : Nat → Mem → Nat → Nat → Nat → Nat → Mem × Option Int
+  | 0, m, _, _, n, i => (m, if i < n then none else some 0)
   | f + 1, m, s1, s2, n, i =>
     if i < n then
+      let m := m.note (s1 + i)
       let a := m.rd (s1 + i)
+      let m := m.note (s2 + i)
       let b := m.rd (s2 + i)
-      if a ≠ b then some ((a.toNat : Int) - (b.toNat : Int))
+      if a ≠ b then (m, some ((a.toNat : Int) - (b.toNat : Int)))
       else compareBytesLoop f m s1 s2 n (i + 1)
-    else some 0
+    else (m, some 0)
 
-def compareBytes (m : Mem) (s1 s2 n : Nat) : Option Int := compareBytesLoop n m s1 s2 n 0
+def compareBytes (m : Mem) (s1 s2 n : Nat) : Mem × Option Int := compareBytesLoop n m s1 s2 n 0
 
 /-! ## the exported symbols -/
 
@@ -278,9 +306,9 @@ def memmove (m : Mem) (dest src n : Nat) : Mem × Nat :=
   let delta := wrappingSub dest src
   if delta ≥ n then (copyForward m dest src n, dest) else (copyBackward m dest src n, dest)
 
-def memcmp (m : Mem) (s1 s2 n : Nat) : Option Int := compareBytes m s1 s2 n
+def memcmp (m : Mem) (s1 s2 n : Nat) : Mem × Option Int := compareBytes m s1 s2 n
 
-def bcmp (m : Mem) (s1 s2 n : Nat) : Option Int := memcmp m s1 s2 n
+def bcmp (m : Mem) (s1 s2 n : Nat) : Mem × Option Int := memcmp m s1 s2 n
 
 /-- `c as u8` for a `c_int` -/
 def asU8 (c : Int) : UInt8 := UInt8.ofNat (c % 256).toNat
@@ -293,7 +321,7 @@ def memset (m : Mem) (s : Nat) (c : Int) (n : Nat) : Mem × Nat := (setBytes m s
 def pattern (seed i : Nat) : UInt8 := UInt8.ofNat (((i % 251) * 7 + seed * 13 + 3) % 256)
 
 def mkArena (base size seed : Nat) : Mem :=
-  { base := base, data := Array.ofFn (n := size) (fun i => pattern seed i.val), oob := [], bad := 0 }
+  { base := base, data := Array.ofFn (n := size) (fun i => pattern seed i.val), oob := [], bad := 0, rlog := [], wlog := [] }
 
 abbrev HASH_P : Nat := 36028797018963913  -- 2^55 - 55, prime
 
